@@ -11,7 +11,7 @@ use debruijn::graph::DebruijnGraph;
 use debruijn::Kmer;
 use serde::{Deserialize, Serialize};
 use serde_json::{json, Value};
-use simcore::dna::{self, GenCfg};
+use simcore::dna;
 use simcore::driver::{guarded, Harness, Tier};
 use simcore::model::kmer_bases;
 use simcore::monitor::{node_kmers_model, Mon};
@@ -20,7 +20,6 @@ use simcore::rec::{Rec, Violation};
 use simcore::rng::Rng;
 use std::collections::BTreeSet;
 
-use crate::ktypes::k_of;
 use crate::with_k;
 
 pub const KTYPES: [&str; 8] = ["Kmer4", "Kmer6", "Kmer8", "Kmer16", "Kmer20", "KmerK31", "Kmer32", "Kmer48"];
@@ -34,59 +33,7 @@ pub enum Op {
     NthRel(i64),
 }
 
-#[derive(Clone, Debug, Serialize, Deserialize)]
-pub struct GraphSpec {
-    pub ktype: String,
-    pub stranded: bool,
-    pub min_count: usize,
-    pub reads: Vec<Vec<u8>>,
-}
-
-pub fn gen_graph_spec(rng: &mut Rng, ktypes: &[&str], max_reads: usize, max_len: usize) -> GraphSpec {
-    let ktype = rng.pick(ktypes).to_string();
-    let k = k_of(&ktype);
-    let cfg = GenCfg {
-        k,
-        max_reads,
-        max_len: max_len.max(2 * k + 8),
-        allow_short: true,
-    };
-    let (reads, _) = dna::gen_reads(rng, &cfg);
-    GraphSpec {
-        ktype,
-        stranded: rng.chance(1, 3),
-        min_count: if rng.chance(1, 5) { 2 } else { 1 },
-        reads,
-    }
-}
-
-pub fn shrink_graph_spec(g: &GraphSpec) -> Vec<GraphSpec> {
-    let mut out = Vec::new();
-    let k = k_of(&g.ktype);
-    for i in 0..g.reads.len() {
-        let mut x = g.clone();
-        x.reads.remove(i);
-        out.push(x);
-    }
-    for i in 0..g.reads.len() {
-        let n = g.reads[i].len();
-        if n > k {
-            for (a, b) in [(0, n / 2 + k / 2), (n / 2 - (k / 2).min(n / 2), n), (1, n), (0, n - 1)] {
-                if b > a && b - a >= k && b - a < n {
-                    let mut x = g.clone();
-                    x.reads[i] = g.reads[i][a..b].to_vec();
-                    out.push(x);
-                }
-            }
-        }
-    }
-    if g.min_count > 1 {
-        let mut x = g.clone();
-        x.min_count = 1;
-        out.push(x);
-    }
-    out
-}
+pub use simcore::spec::{gen_graph_spec, shrink_graph_spec, GraphSpec};
 
 fn build<K: Kmer>(g: &GraphSpec) -> DebruijnGraph<K, u16> {
     base_graph_counts::<K>(&g.reads, g.stranded, g.min_count).finish_serial()
